@@ -266,6 +266,10 @@ class FileSpace(statespace.Space):
     for p in ('m', 'em', 'a') + (('bare',) if self.fs == 'std' else ()):
       for v in (FILE_VALUES if p != 'bare' else ('mid', 'short')):
         ops.append(('save', p, v))
+      if p in w['m'] and p != 'bare':
+        # overwrite while a reader of the old content is still open (a raw handle that read to the end and was never
+        # closed); only as one step with the overwrite: what a *load* sees while such a handle is open is not claimed
+        ops.append(('peeksave', p, 'short'))
       ops.append(('load', p))
     for p in ('r1', 'er1') + (('bare-recs',) if self.fs == 'std' else ()):
       for v in ('long', 'short', 'uni'):
@@ -285,6 +289,13 @@ class FileSpace(statespace.Space):
     k = op[0]
     try:
       if k == 'save':
+        v = FILE_VALUES[op[2]]()
+        pg.save(v, self.paths(w)[op[1]])
+        w['m'][op[1]] = v
+      elif k == 'peeksave':
+        h = pg.io.open(self.paths(w)[op[1]], 'r')
+        h.read()
+        w.setdefault('handles', []).append(h)
         v = FILE_VALUES[op[2]]()
         pg.save(v, self.paths(w)[op[1]])
         w['m'][op[1]] = v
@@ -330,6 +341,11 @@ class FileSpace(statespace.Space):
     return bad
 
   def dispose(self, w):
+    for h in w.get('handles', []):
+      try:
+        h.close()
+      except Exception:  # pylint: disable=broad-except
+        pass
     if self.fs == 'std':
       os.chdir('/')
       shutil.rmtree(w['root'], ignore_errors=True)
